@@ -276,3 +276,5 @@ Print Assumptions C09_memo2d_recursive_at_most_once_callable.
 Print Assumptions C09_memo2d_never_more_than_plain.
 Print Assumptions C09_memo2d_true_once_trajectory.
 Print Assumptions C09_memo2d_true_once_trajectory_callable.
+From CPL Require Import gen.GenFuns_C09 GenProps.GenFunsEquivC09 GenProps.C09Src. (* source tie: gen/GenFuns_C09.v is regenerated from ca_functions.py, ca_functions2d.py on every run *)
+Theorem C09_source_tie : (forall (St : Type) (rule : rule1 St) (s : St) (cache : list (list Z * Z)) (lg : list call1) (n : list Z) (c t : nat), get_memoized rule (s, cache, lg) n c t = (let '((sl, cache'), v) := src_get_memoized (fun n => n) (logged1 rule) (s, lg) n c t cache in ((fst sl, cache', snd sl), v))) /\ (forall (St : Type) (rule : rule2 St) (s : St) (m : memo_table) (n : nbhd2) (c : (nat * nat)%type) (t : nat), get_memoized2 rule (s, m) n c t = src_get_memoized2d memo_key rule s n c t m). Proof. exact C09_source_translation_agrees. Qed. Print Assumptions C09_source_tie.
